@@ -53,8 +53,8 @@ fn observe<T>(acc: &mut Acc, case: u64, entry: &str, class: &str, detail: Value,
         Ok(Ok(v)) => {
             *acc.outcomes.entry(format!("{entry} | Ok")).or_insert(0) += 1;
             if accept_is_violation {
-                let e0 = entry.split('[').next().unwrap_or(entry);
-                acc.fails.push((format!("{e0}.accepted_malformed.{class}"), json!({"entry": entry, "input_class": class, "detail": detail})));
+                let e0 = entry_name(entry);
+                acc.fails.push((format!("{e0}.accepted_malformed.{}", class_site(class)), json!({"entry": entry, "input_class": class, "detail": detail})));
             }
             Some(v)
         }
@@ -66,12 +66,38 @@ fn observe<T>(acc: &mut Acc, case: u64, entry: &str, class: &str, detail: Value,
             *acc.outcomes.entry(format!("{entry} | PANIC")).or_insert(0) += 1;
             // signature = entry point + input class (the panic site is evidence, not identity: one missing
             // validation surfaces at many sites)
-            let e0 = entry.split('[').next().unwrap_or(entry);
-            let sig = format!("{e0}.panic.{class}");
+            let e0 = entry_name(entry);
+            let sig = format!("{e0}.panic.{}", class_site(class));
             acc.fails.push((sig, json!({"entry": entry, "input_class": class, "panic": p.msg, "site": norm_loc(&p.loc), "message_class": msg_class(&p.msg).chars().take(60).collect::<String>(), "detail": detail})));
             None
         }
     }
+}
+
+/// Entry point without the subject tag ("verify[keccak]" -> "verify").
+fn entry_name(entry: &str) -> String {
+    match (entry.find('['), entry.find(']')) {
+        (Some(a), Some(b)) if b > a => format!("{}{}", &entry[..a], &entry[b + 1..]),
+        _ => entry.to_string(),
+    }
+}
+
+/// Input class without the list operation ("Openings.wires.DropLast" -> "Openings.wires").
+fn class_site(class: &str) -> String {
+    for op in ["DropLast", "Empty", "DupLast", "Halve", "ToThree"] {
+        if let Some(x) = class.strip_suffix(&format!(".{op}")) {
+            return x.to_string();
+        }
+    }
+    class.to_string()
+}
+
+/// The entry with the `k`-th smallest key (mod the size) of a map.
+fn nth_mut<V>(m: &mut hashbrown::HashMap<usize, V>, k: usize) -> Option<&mut V> {
+    let mut keys: Vec<usize> = m.keys().copied().collect();
+    keys.sort_unstable();
+    let key = *keys.get(k % keys.len().max(1))?;
+    m.get_mut(&key)
 }
 
 fn site_name(s: &tamper::ListSite) -> String {
@@ -92,10 +118,6 @@ where
             }
             let class = format!("{}.{op:?}", site_name(&site));
             observe(acc, case, &format!("verify[{hname}]"), &class, json!({}), || data.verify(q.clone()), true);
-            // compress of a malformed proof, then compressed verification
-            if let Some(cp) = observe(acc, case, &format!("compress[{hname}]"), &class, json!({}), || data.compress(q.clone()), false) {
-                observe(acc, case, &format!("verify_compressed[{hname}]"), &format!("compressed_from.{class}"), json!({}), || data.verify_compressed(cp.clone()), true);
-            }
         }
     }
     // (1b) compressed proof: maps, indices, inner lists
@@ -105,6 +127,8 @@ where
     };
     let lde_size = 1usize << (data.common.degree_bits() + data.common.config.fri_config.rate_bits);
     let mut variants: Vec<(String, CompressedProofWithPublicInputs<F, C, D>)> = vec![];
+    let pick_a: usize = rng.gen_range(0..1 << 16);
+    let pick_b: usize = rng.gen_range(0..1 << 16);
     {
         let mut push = |name: &str, f: &dyn Fn(&mut CompressedProofWithPublicInputs<F, C, D>) -> bool| {
             let mut q = cp0.clone();
@@ -127,11 +151,12 @@ where
             push(&format!("FinalPoly.{op:?}"), &|q| vec_op(&mut q.proof.opening_proof.final_poly.coeffs, op));
             push(&format!("Indices.{op:?}"), &|q| vec_op(&mut q.proof.opening_proof.query_round_proofs.indices, op));
             push(&format!("StepLayers.{op:?}"), &|q| vec_op(&mut q.proof.opening_proof.query_round_proofs.steps, op));
-            push(&format!("InitialEntry.proofs.{op:?}"), &|q| q.proof.opening_proof.query_round_proofs.initial_trees_proofs.values_mut().next().map(|e| vec_op(&mut e.evals_proofs, op)).unwrap_or(false));
-            push(&format!("InitialEntry.leaf.{op:?}"), &|q| q.proof.opening_proof.query_round_proofs.initial_trees_proofs.values_mut().next().and_then(|e| e.evals_proofs.first_mut()).map(|e| vec_op(&mut e.0, op)).unwrap_or(false));
-            push(&format!("InitialEntry.siblings.{op:?}"), &|q| q.proof.opening_proof.query_round_proofs.initial_trees_proofs.values_mut().next().and_then(|e| e.evals_proofs.first_mut()).map(|e| vec_op(&mut e.1.siblings, op)).unwrap_or(false));
-            push(&format!("StepEntry.evals.{op:?}"), &|q| q.proof.opening_proof.query_round_proofs.steps.first_mut().and_then(|m| m.values_mut().next()).map(|s| vec_op(&mut s.evals, op)).unwrap_or(false));
-            push(&format!("StepEntry.siblings.{op:?}"), &|q| q.proof.opening_proof.query_round_proofs.steps.first_mut().and_then(|m| m.values_mut().next()).map(|s| vec_op(&mut s.merkle_proof.siblings, op)).unwrap_or(false));
+            // one entry of the initial map and one of a step layer, both drawn per case
+            push(&format!("InitialEntry.proofs.{op:?}"), &|q| nth_mut(&mut q.proof.opening_proof.query_round_proofs.initial_trees_proofs, pick_a).map(|e| vec_op(&mut e.evals_proofs, op)).unwrap_or(false));
+            push(&format!("InitialEntry.leaf.{op:?}"), &|q| nth_mut(&mut q.proof.opening_proof.query_round_proofs.initial_trees_proofs, pick_a).and_then(|e| { let n = e.evals_proofs.len().max(1); e.evals_proofs.get_mut(pick_b % n) }).map(|e| vec_op(&mut e.0, op)).unwrap_or(false));
+            push(&format!("InitialEntry.siblings.{op:?}"), &|q| nth_mut(&mut q.proof.opening_proof.query_round_proofs.initial_trees_proofs, pick_a).and_then(|e| { let n = e.evals_proofs.len().max(1); e.evals_proofs.get_mut(pick_b % n) }).map(|e| vec_op(&mut e.1.siblings, op)).unwrap_or(false));
+            push(&format!("StepEntry.evals.{op:?}"), &|q| { let steps = &mut q.proof.opening_proof.query_round_proofs.steps; let n = steps.len().max(1); steps.get_mut(pick_b % n).and_then(|m| nth_mut(m, pick_a)).map(|s| vec_op(&mut s.evals, op)).unwrap_or(false) });
+            push(&format!("StepEntry.siblings.{op:?}"), &|q| { let steps = &mut q.proof.opening_proof.query_round_proofs.steps; let n = steps.len().max(1); steps.get_mut(pick_b % n).and_then(|m| nth_mut(m, pick_a)).map(|s| vec_op(&mut s.merkle_proof.siblings, op)).unwrap_or(false) });
         }
         // map-key edits
         push("InitialMap.clear", &|q| {
@@ -161,12 +186,38 @@ where
             let k = m.keys().next().copied();
             k.map(|k| m.remove(&k).is_some()).unwrap_or(false)
         }).unwrap_or(false));
+        push("InitialMap.surplus_key", &|q| {
+            let m = &mut q.proof.opening_proof.query_round_proofs.initial_trees_proofs;
+            let v = m.values().next().cloned();
+            let free = (0..lde_size).find(|k| !m.contains_key(k));
+            match (v, free) {
+                (Some(v), Some(k)) => {
+                    m.insert(k, v);
+                    true
+                }
+                _ => false,
+            }
+        });
+        push("StepMap.surplus_key", &|q| {
+            let steps = &mut q.proof.opening_proof.query_round_proofs.steps;
+            let n = steps.len().max(1);
+            steps.get_mut(pick_b % n).map(|m| {
+                let v = m.values().next().cloned();
+                let free = (0..lde_size).find(|k| !m.contains_key(k));
+                match (v, free) {
+                    (Some(v), Some(k)) => {
+                        m.insert(k, v);
+                        true
+                    }
+                    _ => false,
+                }
+            }).unwrap_or(false)
+        });
         push("Indices.out_of_range", &|q| {
             q.proof.opening_proof.query_round_proofs.indices.iter_mut().for_each(|x| *x = usize::MAX - 3);
             true
         });
     }
-    let _ = rng;
     for (class, q) in variants {
         // the redundant index list is never read: edits to it alone keep the proof valid
         let benign = class.starts_with("Indices.");
@@ -319,6 +370,23 @@ fn stark_part<const COLS: usize>(acc: &mut Acc, case: u64, rng: &mut ChaCha8Rng,
             }
         });
     }
+    // proofs that lack a component from the start, so that their transcript is coherent: produced by
+    // provers that never send it (honest trace; the proofs are malformed all the same)
+    if !lookups {
+        use starky::verif_hooks::{set_knobs, StarkProverKnobs};
+        for (name, knobs) in [
+            ("Coherent.no_quotient_cap", StarkProverKnobs { forge_quotient_after_zeta: true, ..Default::default() }),
+            ("Coherent.no_quotient_openings", StarkProverKnobs { zero_quotient_without_openings: true, ..Default::default() }),
+        ] {
+            Run::note_current(case, "idle", &json!({"phase": "hostile prover"}));
+            set_knobs(knobs);
+            let forged = catch(|| stark_prove(&stark, &config, &trace, &pis));
+            set_knobs(StarkProverKnobs::default());
+            if let Ok(Ok(q)) = forged {
+                variants.push((name.to_string(), q));
+            }
+        }
+    }
     // honest challenges for the with_challenges entry point
     let honest_ch = catch(|| {
         let mut ch = Challenger::<F, <PC as GenericConfig<D>>::Hasher>::new();
@@ -327,6 +395,9 @@ fn stark_part<const COLS: usize>(acc: &mut Acc, case: u64, rng: &mut ChaCha8Rng,
     .ok();
     for (class, q) in variants {
         observe(acc, case, entry, &class, json!({}), || verify_stark_proof::<F, PC, GenStark<COLS, 0>, D>(stark.clone(), q.clone(), &config, None), true);
+        if class.starts_with("Coherent.") {
+            continue;
+        }
         if let Some(ch) = &honest_ch {
             observe(acc, case, &format!("{entry}.with_challenges"), &class, json!({}), || verify_stark_proof_with_challenges::<F, PC, GenStark<COLS, 0>, D>(&stark, &q.proof, ch, None, &q.public_inputs, &config), true);
         }
@@ -359,6 +430,8 @@ fn stark_part<const COLS: usize>(acc: &mut Acc, case: u64, rng: &mut ChaCha8Rng,
 fn case(seed: u64, c: u64, quick: bool) -> Acc {
     let mut acc = Acc::default();
     let mut rng = crate::mon::case_rng(seed, 18_001, c);
+    // building and proving the subject is the harness's own work: a death there is not a verdict
+    Run::note_current(c, "idle", &json!({"phase": "building the subject"}));
     match c % 4 {
         0 | 1 => {
             if let Ok(pr) = pool_member::<PC>(seed, 18_002, c, c as u32) {
@@ -375,10 +448,12 @@ fn case(seed: u64, c: u64, quick: bool) -> Acc {
         }
         _ => {
             stark_part::<4>(&mut acc, c, &mut rng, false);
+            Run::note_current(c, "idle", &json!({"phase": "building the subject"}));
             stark_part::<6>(&mut acc, c, &mut rng, true);
             acc.sample = Some(json!({"subject": "stark proofs (with and without lookups)"}));
         }
     }
+    Run::note_current(c, "idle", &json!({"phase": "case finished"}));
     acc
 }
 
@@ -391,11 +466,11 @@ fn limit_address_space(bytes: u64) {
 
 pub fn run(tier: Tier) -> ! {
     let mut run = Run::new("C18", "fault_enumeration", tier);
-    run.rule("entry points verify / compress / verify_compressed / decompress / ProofWithPublicInputs::from_bytes / CompressedProofWithPublicInputs::from_bytes (Poseidon and Keccak circuits incl. lookups and zk), verify_stark_proof / verify_stark_proof_with_challenges / serde decoding (STARKs with and without lookups). Inputs: every list x {drop last, empty, duplicate last, halve, three entries}; compressed-proof map edits (clear, remove key, out-of-range key, out-of-range indices); STARK Option flips; byte strings (truncated, bit flipped, 0xFF runs, trailing bytes, random, window removed). Workers run under a 6 GiB address-space limit and a supervisor that attributes a dying worker to the input it was processing. Violation = panic (signature: entry point, panic site, message class), worker death, acceptance of a malformed value, or acceptance of a decoded value that differs from the original proof. distinct = (entry point, input class).");
+    run.rule("entry points verify / verify_compressed / decompress / ProofWithPublicInputs::from_bytes / CompressedProofWithPublicInputs::from_bytes (Poseidon and Keccak circuits incl. lookups and zk), verify_stark_proof / verify_stark_proof_with_challenges / serde decoding (STARKs with and without lookups). Inputs: every list x {drop last, empty, duplicate last, halve, three entries}; compressed-proof map edits (clear, remove key, surplus key, out-of-range key, out-of-range indices) on drawn entries; STARK Option flips; byte strings (truncated, bit flipped, 0xFF runs, trailing bytes, random, window removed). Workers run under a 6 GiB address-space limit and a supervisor that attributes a dying worker to the input it was processing. Violation = panic (signature: entry point + input site; panic site and message are recorded in the replay file), worker death, acceptance of a malformed value, or acceptance of a decoded value that differs from the original proof. distinct = (entry point, input class).");
     run.assume("a value that decodes successfully and equals the original proof (trailing bytes, redundant compressed indices) may be accepted");
     let quick = run.quick();
     let seed = run.seed;
-    let n_cases: u64 = run.pick(16, 160);
+    let n_cases: u64 = run.pick(16, 480);
     let mut outcomes: BTreeMap<String, u64> = BTreeMap::new();
     if Run::shard_spec().is_none() {
         let dir = crate::mon::verif_dir().join("scratch").join(format!("c18-{}", std::process::id()));
